@@ -8,7 +8,8 @@
     - SMD: every line Mesh.export can write (Gen/SmdTpl_gen.v) keeps its conversions apart. *)
 From Coq Require Import List NArith ZArith Bool Sorted Permutation.
 Import ListNotations.
-From SV Require Fmt.CmdSeq Fmt.CmdSeqProofs Fmt.ScenesImage Fmt.ScenesImageProofs Fmt.SmdTpl Fmt.SmdTplProofs.
+From SV Require Fmt.CmdSeq Fmt.CmdSeqProofs Fmt.ScenesImage Fmt.ScenesImageProofs Fmt.ScenesImageCfg Fmt.ScenesImageCfgProofs
+  Fmt.SmdTpl Fmt.SmdTplProofs.
 
 (** * Command sequences *)
 Module CS := Fmt.CmdSeq.
@@ -85,6 +86,75 @@ Qed.
 
 Theorem c20_image_okb_sound : forall v pool es, SI.image_okb v pool es = true -> SI.image_ok v pool es.
 Proof. exact SIP.image_okb_sound. Qed.
+
+(** * scenes.image: the writer over the configuration regenerated from choreo.py (Gen/ScenesImg_gen.v) *)
+Module SC := Fmt.ScenesImageCfg.
+Module SCP := Fmt.ScenesImageCfgProofs.
+
+(** for every configuration satisfying the obligations (struct formats and the value each field carries on both sides,
+    version tests, the sort in effect for every input form when the pool is filled and when the table is written) the
+    configured writer produces exactly the bytes of the hand model, for both input forms and whatever the dict keys are *)
+Theorem c20_image_cfg_writer_is_model : forall c is_dict version pool kes,
+  SC.icfg_okb c = true -> SC.image_ok_w version pool (map snd kes) ->
+  SC.img_save_g c is_dict version pool kes = Some (SI.img_write version pool (map snd kes)).
+Proof. exact SCP.save_g_is_img_write. Qed.
+
+Theorem c20_image_cfg_roundtrip : forall c is_dict version pool kes,
+  SC.icfg_okb c = true -> SC.image_ok_w version pool (map snd kes) ->
+  exists b, SC.img_save_g c is_dict version pool kes = Some b /\
+    SI.img_parse b = Some (version, pool, map (SI.to_pentry version pool) (SI.sort_by_crc (map snd kes))).
+Proof. exact SCP.save_g_roundtrip. Qed.
+
+(** the stored table is sorted by checksum, for the dict form too (keys play no role) *)
+Theorem c20_image_cfg_table_sorted : forall c is_dict version pool kes,
+  SC.icfg_okb c = true -> SC.image_ok_w version pool (map snd kes) ->
+  exists b ps, SC.img_save_g c is_dict version pool kes = Some b /\ SI.img_parse b = Some (version, pool, ps) /\
+    StronglySorted N.le (map SI.p_crc ps) /\ Permutation (map (fun ke => SI.e_crc (snd ke)) kes) (map SI.p_crc ps).
+Proof. exact SCP.save_g_table_sorted. Qed.
+
+(** sort site, generically: whenever the sort key is the attribute stored in the table, the stored column is sorted *)
+Theorem c20_image_table_sorted_by_stored_attribute : forall a kes,
+  StronglySorted N.le (map (SC.ekey a) (SC.order_g SC.ekey (SC.SKAttr a) kes)).
+Proof. exact SCP.table_sorted_by_stored_attribute. Qed.
+
+(** including the construction of the string pool (find_or_insert over sounds and scene strings in sorted order):
+    the file parses to that pool and to entries whose sounds are the original strings *)
+Theorem c20_image_pool_roundtrip : forall c is_dict version pool0 kes, SC.icfg_okb c = true ->
+  let pool := SC.pool_g c is_dict pool0 kes in
+  SC.image_ok_w version pool (map (SC.resolve pool) (map snd kes)) ->
+  exists b, SC.img_save_s c is_dict version pool0 kes = Some b /\
+    SI.img_parse b = Some (version, pool, map (SC.to_pentry_s version) (SC.sort_by SC.s_crc (map snd kes))).
+Proof. exact SCP.save_s_roundtrip. Qed.
+
+(** equal images give identical files: the caller's order, the input form and the dict keys do not matter
+    (entries with distinct checksums) *)
+Theorem c20_image_order_independent : forall c d1 d2 version pool0 kes1 kes2,
+  SC.icfg_okb c = true -> Permutation (map snd kes1) (map snd kes2) -> NoDup (map SC.s_crc (map snd kes1)) ->
+  SC.img_save_s c d1 version pool0 kes1 = SC.img_save_s c d2 version pool0 kes2.
+Proof. exact SCP.save_s_order_independent. Qed.
+
+(** refuted variants (computed witnesses).  Table ordered by the dict key, keys stale (entries stored under 5 and 7
+    have checksums 30 and 10): the obligation is false, the parsed table is [30; 10], and the list form of the same
+    image gives another file *)
+Theorem c20_image_sort_by_dict_key_refuted :
+  (SC.sort_table_okb SC.cfg_dict_key = false /\ SC.sort_pool_okb SC.cfg_dict_key = false) /\
+  SC.parsed_crcs (SC.img_save_s SC.cfg_dict_key true 3 [] [(5, SC.ex_s1); (7, SC.ex_s2)])%N = Some [30; 10]%N /\
+  SC.img_save_s SC.cfg_dict_key true 3 [] [(5, SC.ex_s1); (7, SC.ex_s2)]%N
+  <> SC.img_save_s SC.cfg_dict_key false 3 [] [(5, SC.ex_s1); (7, SC.ex_s2)]%N.
+Proof. exact (conj SCP.dict_key_cfg_rejected SCP.sort_by_dict_key_refuted). Qed.
+
+(** pool filled in the caller's order and the table sorted afterwards (the pinned tree): two orders, two files *)
+Theorem c20_image_pool_in_caller_order_refuted :
+  (SC.sort_pool_okb SC.cfg_pool_unsorted = false /\ SC.sort_table_okb SC.cfg_pool_unsorted = true) /\
+  SC.img_save_s SC.cfg_pool_unsorted false 3 [] [(0, SC.ex_s1); (0, SC.ex_s2)]%N
+  <> SC.img_save_s SC.cfg_pool_unsorted false 3 [] [(0, SC.ex_s2); (0, SC.ex_s1)]%N.
+Proof. exact (conj SCP.pool_unsorted_cfg_rejected SCP.pool_in_caller_order_refuted). Qed.
+
+(** table sorted by an attribute other than the stored one *)
+Theorem c20_image_sort_by_other_attribute_refuted :
+  SC.sort_table_okb SC.cfg_sort_other = false /\
+  SC.parsed_crcs (SC.img_save_s SC.cfg_sort_other false 3 [] [(0, SC.ex_s1); (0, SC.ex_s2)])%N = Some [30; 10]%N.
+Proof. exact SCP.sort_by_other_attribute_refuted. Qed.
 
 (** * SMD line templates *)
 Module ST := Fmt.SmdTpl.
